@@ -23,9 +23,48 @@ def path_join(ev, args, kwargs, node):
     raise Unsupported("os.path.join arity")
 
 
+ABSN = z3.Function("is_abs_norm", z3.StringSort(), z3.BoolSort())     # "an absolute, normalised path"
+
+
 def path_abspath(ev, args, kwargs, node):
+    """os.path.abspath: a function of its argument (and the working directory); the result is absolute and normalised"""
     USED.add("A-path-1")
-    return VStr(ufunc("abspath", S, S)(args[0].t))
+    r = ufunc("abspath", S, S)(args[0].t)
+    ev.st.assume(ABSN(r))
+    ev.st.assume(z3.PrefixOf(z3.StringVal("/"), r))
+    return VStr(r)
+
+
+def path_normpath(ev, args, kwargs, node):
+    """os.path.normpath: normalised; absolute exactly when its argument is (a relative path STAYS relative)"""
+    USED.add("A-path-1")
+    r = ufunc("normpath", S, S)(args[0].t)
+    ev.st.assume(ABSN(r) == z3.PrefixOf(z3.StringVal("/"), args[0].t))
+    return VStr(r)
+
+
+def path_join3(ev, args, kwargs, node):
+    """os.path.join(a, '..', b) with a relative b: absolute exactly when a is"""
+    USED.add("A-path-1")
+    r = ufunc("path_join3", S, S, S, S)(args[0].t, args[1].t, args[2].t)
+    ev.st.assume(z3.PrefixOf(z3.StringVal("/"), r) == z3.Or(z3.PrefixOf(z3.StringVal("/"), args[0].t),
+                                                             z3.PrefixOf(z3.StringVal("/"), args[2].t)))
+    return VStr(r)
+
+
+def find_spec_stub(ev, args, kwargs, node):
+    """importlib.util.find_spec(package): None, or a spec whose origin is None or the ABSOLUTE path of the package's
+    __init__ file (A-importlib)"""
+    USED.add("A-importlib")
+    st = ev.st
+    k = st.choose([z3.BoolVal(True)] * 3, force_record=True)
+    if k == 0:
+        return NONE
+    if k == 1:
+        return st.alloc(Obj("ModuleSpec", {"origin": NONE}))
+    o = st.fresh(Str, "spec.origin")
+    st.assume(z3.PrefixOf(z3.StringVal("/"), o.t))
+    return st.alloc(Obj("ModuleSpec", {"origin": o}))
 
 
 def path_relpath(ev, args, kwargs, node):
@@ -49,8 +88,9 @@ UF = {"abspath": ([Str], Str), "path_join": ([Str, Str], Str), "join_segments": 
 ENSURE_ABS = Contract(
     id="ensure_absolute_path", file=SF, qualname="BaseFiles.ensure_absolute_path", props=["C07"],
     params={"self": ObjT(SF + ":BaseFiles", directory=Str), "path": Str}, returns=Opt(Str),
-    requires=["self.directory != '' and not self.directory.endswith('/')"],
-    defs=DEFS, ufuncs=UF, cls="BaseFiles",
+    # (the class invariant BaseFiles.__init__ establishes through normalize_dir_path: see NORMALIZE_DIR)
+    requires=["self.directory != '' and not self.directory.endswith('/')", "is_abs_norm(self.directory)"],
+    defs=DEFS, ufuncs=dict(UF, is_abs_norm=([Str], Bool)), cls="BaseFiles",
     stubs={"os.path.join": path_join, "os.path.abspath": path_abspath, "os.path.relpath": path_relpath, "os.sep": None},
     consts={"os": VGlobal("os")},
     ensures={
@@ -99,6 +139,25 @@ def s_isreg(ev, args, kwargs, node):
 FS_T = ObjT("FsGhost", n_stat=Int, last=Str, all_inside=Bool, ok_path=Str, ok_mtime=Opaque("Float"), ok_size=Int, ok_ctime=Opaque("Float"))
 STAT_T = ObjT("stat_result", st_mode=Int, st_size=Int, st_mtime=Opaque("Float"), st_ctime=Opaque("Float"))
 
+NORMALIZE_DIR = Contract(
+    id="BaseFiles.normalize_dir_path", file=SF, qualname="BaseFiles.normalize_dir_path", props=["C07"],
+    params={"self": ObjT(SF + ":BaseFiles"), "directory": Str, "package": Opt(Str)}, returns=Str,
+    # (with a package, BaseFiles.__init__ has asserted that `directory` is relative)
+    requires=["implies(not is_none(package), not directory.startswith('/'))"],
+    ufuncs={"is_abs_norm": ([Str], Bool)},
+    stubs={"os.path.abspath": path_abspath, "os.path.normpath": path_normpath, "os.path.join": path_join3,
+           "importlib.util.find_spec": find_spec_stub,
+           "os.path.isdir": lambda ev, a, k, n: VBool(z3.Bool(ev.st.run.fresh_name("isdir")))},
+    raises={"AssertionError": "not is_none(package)"},
+    ensures={
+        # the configured directory is fixed when the application is constructed: an absolute, normalised path - NOT a relative
+        # one that every request would resolve against the working directory of the moment
+        "absolute": "is_abs_norm(result)",
+    },
+    canaries={"never_returns": "False"},
+    assumptions=["A-path-1", "A-importlib"],
+)
+
 CHECK_FILE = Contract(
     id="check_path_is_file", file=SF, qualname="BaseFiles.check_path_is_file", props=["C07", "C12"],
     params={"self": ObjT(SF + ":BaseFiles", directory=Str), "path": Opt(Str)}, returns=Tup(Opt(STAT_T), Bool),
@@ -136,8 +195,8 @@ def pages_ensure(file_, iface):
     return Contract(
         id=iface + ".Pages.ensure_absolute_path", file=file_, qualname="Pages.ensure_absolute_path", props=["C07"],
         params={"self": ObjT(file_ + ":Pages", directory=Str), "path": Str}, returns=Opt(Str),
-        requires=["self.directory != '' and not self.directory.endswith('/')"],
-        defs=DEFS, ufuncs=UF,
+        requires=["self.directory != '' and not self.directory.endswith('/')", "is_abs_norm(self.directory)"],
+        defs=DEFS, ufuncs=dict(UF, is_abs_norm=([Str], Bool)),
         stubs={"super().ensure_absolute_path": base_ensure},
         ensures={
             "confined": "is_none(result) or inside(self.directory, result)",
@@ -278,12 +337,12 @@ def mk_app_call(file_, iface, cls):
         id="%s.%s.__call__" % (iface, cls), file=file_, qualname=cls + ".__call__", props=["C07", "C12"],
         params=params,
         ghosts={"fs": FS_T, "sv": SV_T, "rp": Str, "fx": ObjT("FxGhost", n_set_headers=Int), "pieces": List(Str)},
-        requires=["self.directory != '' and not self.directory.endswith('/')", "fs.n_stat == 0 and fs.all_inside",
+        requires=["self.directory != '' and not self.directory.endswith('/')", "is_abs_norm(self.directory)", "fs.n_stat == 0 and fs.all_inside",
                   "sv.n == 0 and sv.n_404 == 0 and sv.n_redirect == 0 and not sv.malformed", "fx.n_set_headers == 0"] + (
                   ["rp == scope['path']"] if iface == "asgi" else []) + extra_requires,
         defs=dict(DEFS, **dict(req_defs, **dict(_c14.DEFS, **{
             "resolved_rp()": "abspath(path_join(self.directory, join_segments(rp))) + ('/' if rp.endswith('/') else '')"}))),
-        ufuncs=dict(UF, S_ISREG=([Int], Bool), S_ISDIR=([Int], Bool), inm_upto=([Int], Str), ims_upto=([Int], Str),
+        ufuncs=dict(UF, is_abs_norm=([Str], Bool), S_ISREG=([Int], Bool), S_ISDIR=([Int], Bool), inm_upto=([Int], Str), ims_upto=([Int], Str),
                     date_parses=([Str], Bool), parsed_date=([Str], Opaque("Datetime")), dt_timestamp=([Opaque("Datetime")], Opaque("Float")),
                     floor_int=([Opaque("Float")], Int), etag_of=([Opaque("Float"), Int], Str)),
         stubs={"request_path": lambda ev, a, k, n: ev.st.ghost["rp"], "stat.S_ISDIR": _s_isdir, "URL": _url_stub,
@@ -328,7 +387,7 @@ for _c in APP_CALLS:
 
 
 def register(reg):
-    for c in (ENSURE_ABS, CHECK_FILE, pages_ensure(WS, "wsgi"), pages_ensure(AS, "asgi")):
+    for c in (ENSURE_ABS, CHECK_FILE, NORMALIZE_DIR, pages_ensure(WS, "wsgi"), pages_ensure(AS, "asgi")):
         reg.add(c)
     for c in APP_CALLS:
         reg.add(c)
